@@ -29,15 +29,29 @@ def resolved_inputs(snap, t):
     minus the exclude "<dir>/f0*"."""
     res = list(t["ins"])
     if t.get("glob"):
-        d = t["glob"].split("/")[0]
+        d, pat = t["glob"].split("/", 1)
         pre = full(t["pkg"], d) + "/"
         for p in sorted(snap["files"], key=lambda x: x.encode()):
-            if p.startswith(pre) and "/" not in p[len(pre):] and p.endswith(".txt"):
+            if p.startswith(pre) and "/" not in p[len(pre):] and glob_match(pat, p[len(pre):]):
                 base = p[len(pre):]
                 if t.get("excl") and base.startswith("f0"):
                     continue
                 res.append(d + "/" + base)
     return res
+
+
+def brace_expand(pat):
+    """{a,b}c -> [ac, bc] (one level, as the generator produces)"""
+    i = pat.find("{")
+    if i < 0:
+        return [pat]
+    j = pat.index("}", i)
+    return [pat[:i] + alt + pat[j + 1:] for alt in pat[i + 1:j].split(",")]
+
+
+def glob_match(pat, base):
+    import fnmatch
+    return any(fnmatch.fnmatchcase(base, alt) for alt in brace_expand(pat))
 
 
 def q(s):
@@ -66,7 +80,9 @@ def command_text(snap, t):
         excl = ""
         if t.get("excl"):
             excl = ' case "$f" in %s) continue;; esac;' % "|".join(t["excl"])
-        L.append('for f in %s; do [ -f "$f" ] || continue;%s printf \'I %%s\\n\' "$f"; cat "$f"; printf \'\\n\'; done' % (t["glob"], excl))
+        gd, gpat = t["glob"].split("/", 1)
+        shglob = " ".join(gd + "/" + alt for alt in brace_expand(gpat))     # sh has no brace expansion
+        L.append('for f in %s; do [ -f "$f" ] || continue;%s printf \'I %%s\\n\' "$f"; cat "$f"; printf \'\\n\'; done' % (shglob, excl))
     for fp, real in depouts:
         L.append("printf 'D %%s\\n' %s; cat \"$GROG_WORKSPACE_ROOT\"/%s; printf '\\n'" % (q(fp), q(real)))
     L.append("}")
@@ -379,7 +395,7 @@ def gen_snapshot(r, ntargets=None, features=None):
         # inputs
         if f["glob"] and r.chance(1, 4):
             gd = "g_%s" % name
-            t["glob"] = gd + "/*.txt"
+            t["glob"] = gd + "/" + r.choice(["*.txt", "*.txt", "{f0,f1,f2}.txt", "f?.txt", "[fn]*.txt", "{f0,n1}.*"])
             for k in range(1 + r.below(3)):
                 files[full(pkg, "%s/f%d.txt" % (gd, k))] = r.choice(["x", "xy", "z", "yz", "", "data%d" % k])
             if r.chance(1, 3):
